@@ -138,6 +138,28 @@ Proof. exact (dec_nonneg z). Qed.
 Theorem c18_dec_neg p : dec (Zneg p) = 45%N :: dec (Zpos p).
 Proof. exact (dec_neg p). Qed.
 
+(* THE CURRENT WRITER.  Switch(w) and Close() as steps (Model/Logger.v, wm_step: what each does to the
+   levels exactly as logger.go does).  For every history of Switch / Close / logging operations:
+   a logging call appends exactly its one line to the writer that is current at that time, or
+   nothing when the package is closed or the level is Info (documented: discarded); Switch(w) makes
+   w current whatever came before -- the same writer again, or the same writer after Close --
+   and Close silences the package until the next Switch. *)
+Theorem c18_log_goes_to_current ts pid st ops c :
+  wm_writes ts pid st (ops ++ [MLog c]) =
+  wm_writes ts pid st ops ++
+  (if lvl_live (l_lvl c) then
+     match w_cur (wm_state ts pid st ops) with Some w => [(w, call_line ts pid c)] | None => [] end
+   else []).
+Proof. exact (log_goes_to_current ts pid st ops c). Qed.
+Theorem c18_switch_sets_current ts pid st ops w :
+  w_cur (wm_state ts pid st (ops ++ [MSwitch w])) = Some w /\
+  wm_writes ts pid st (ops ++ [MSwitch w]) = wm_writes ts pid st ops.
+Proof. exact (switch_sets_current ts pid st ops w). Qed.
+Theorem c18_close_silences ts pid st ops :
+  w_cur (wm_state ts pid st (ops ++ [MClose])) = None /\
+  wm_writes ts pid st (ops ++ [MClose]) = wm_writes ts pid st ops.
+Proof. exact (close_silences ts pid st ops). Qed.
+
 (* the labels are the four of logger.go *)
 Example c18_labels :
   label 0 = bstr "[info] " /\ label 1 = bstr "[trace] " /\ label 2 = bstr "[warn] " /\ label 3 = bstr "[error] ".
@@ -169,5 +191,8 @@ Print Assumptions c18_line_format_println.
 Print Assumptions c18_line_println_general.
 Print Assumptions c18_line_format_printf.
 Print Assumptions c18_dec.
+Print Assumptions c18_log_goes_to_current.
+Print Assumptions c18_switch_sets_current.
+Print Assumptions c18_close_silences.
 Print Assumptions c18_lines_whole.
 Print Assumptions c18_every_write_is_a_line.
